@@ -73,3 +73,50 @@ Proof.
     destruct Hin as [->|Hin]; [|apply IH; exact Hin]. rewrite zernike_default_refuses in H0 by exact Hj. discriminate.
   - f_equal. apply (zernike_basis_err mask modes nz e E).
 Qed.
+
+(* vectorize only regroups the samples: the row count is kept and the number of samples is conserved *)
+Lemma result_shape_spec basis nmodes nr nc vec :
+  fold_right Z.mul 1 (zernike_result_shape basis nmodes nr nc vec) = (if basis then nmodes else 1) * (nr * nc)
+  /\ (basis = true -> hd 0 (zernike_result_shape basis nmodes nr nc vec) = nmodes)
+  /\ zernike_result_shape false nmodes nr nc vec = [nr; nc]
+  /\ zernike_result_shape true nmodes nr nc false = [nmodes; nr; nc]
+  /\ zernike_result_shape true nmodes nr nc true = [nmodes; nr * nc].
+Proof. unfold zernike_result_shape. destruct basis, vec; cbn [fold_right hd]; repeat split; try reflexivity; try ring;
+  intros; try discriminate; reflexivity. Qed.
+
+(* ---- zernike_coordinates with an explicit shift ---- *)
+Lemma mesh1_shift n (s : Qc) i : mesh1 n s i = (zQ i - (zQ (n / 2) + s))%Qc.
+Proof. unfold mesh1. ring. Qed.
+
+(* the default call is the explicit one with shift = centroid - shape//2 *)
+Theorem coordinates_default_is_shift mask c :
+  zernike_coordinates mask = Ok c ->
+  exists c', zernike_coordinates_shift mask (centroid_r mask (mcount mask) - zQ (nr mask / 2))%Qc
+                                            (centroid_c mask (mcount mask) - zQ (nc mask / 2))%Qc = Ok c'
+    /\ c_origin_r c' = c_origin_r c /\ c_origin_c c' = c_origin_c c /\ c_rmax2 c' = c_rmax2 c
+    /\ forall i j, c_rho2 c' i j = c_rho2 c i j /\ c_dirx c' i j = c_dirx c i j /\ c_diry c' i j = c_diry c i j.
+Proof.
+  unfold zernike_coordinates, zernike_coordinates_shift.
+  destruct ((nr mask <=? 0) || (nc mask <=? 0)); [discriminate|]. intros H. injection H as <-.
+  eexists. split; [reflexivity|]. cbn [c_origin_r c_origin_c c_rmax2 c_rho2 c_dirx c_diry].
+  repeat split; try reflexivity; ring.
+Qed.
+
+(* with an explicit shift the origin is shape//2 + shift for every array size, rho^2 and the direction
+   are measured from it, and rmax2 is again the largest squared distance over the masked samples *)
+Theorem coordinates_shift_origin mask sr sc c : zernike_coordinates_shift mask sr sc = Ok c ->
+  c_origin_r c = (zQ (nr mask / 2) + sr)%Qc /\ c_origin_c c = (zQ (nc mask / 2) + sc)%Qc /\
+  (forall i j,
+    c_rho2 c i j = ((qsqr (zQ i - c_origin_r c) + qsqr (zQ j - c_origin_c c)) / c_rmax2 c)%Qc /\
+    c_dirx c i j = (- (zQ j - c_origin_c c))%Qc /\ c_diry c i j = (- (zQ i - c_origin_r c))%Qc) /\
+  (forall i j, 0 <= i < nr mask -> 0 <= j < nc mask -> mask_bool (get mask i j) = true ->
+     ((qsqr (zQ i - c_origin_r c) + qsqr (zQ j - c_origin_c c)) <= c_rmax2 c)%Qc).
+Proof.
+  unfold zernike_coordinates_shift. destruct ((nr mask <=? 0) || (nc mask <=? 0)); [discriminate|].
+  intros H. injection H as <-. cbn [c_origin_r c_origin_c c_rmax2 c_rho2 c_dirx c_diry].
+  split; [reflexivity|]. split; [reflexivity|]. split.
+  - intros i j. unfold r2_of. rewrite !mesh1_shift. repeat split; reflexivity.
+  - intros i j Hi Hj Hm. unfold rmax2_of. apply fold_qmax_ge. apply (In_tabulate (S := QS)).
+    exists i, j. cbn [nr nc get]. repeat split; try lia. unfold mbit, r2_of. rewrite Hm, !mesh1_shift.
+    change (K QS) with Qc. ring.
+Qed.
